@@ -40,6 +40,28 @@ static void hook(const void *, size_t idx, size_t size)
     }
 }
 
+#ifdef VP_FN_POINTS
+// Built with -finstrument-functions (library headers only; harness, vp/ and system headers are excluded on the command line):
+// every entry into a covfie function is an additional scheduling point, so state that a layer keeps BETWEEN two storage
+// accesses (a memo, a scratch buffer) can be interleaved by the explorer, not only observed by ThreadSanitizer.
+static thread_local bool tl_in_fn_hook = false;
+extern "C" {
+void __cyg_profile_func_enter(void *, void *) __attribute__((no_instrument_function));
+void __cyg_profile_func_exit(void *, void *) __attribute__((no_instrument_function));
+void __cyg_profile_func_enter(void *, void *)
+{
+    if (g_explore_mode && Sched::tl_id >= 0 && !tl_in_fn_hook) {
+        tl_in_fn_hook = true;
+        Sched::current->point();
+        tl_in_fn_hook = false;
+    }
+}
+void __cyg_profile_func_exit(void *, void *)
+{
+}
+}
+#endif
+
 enum Interp { DIRECT, NN, LINEAR };
 static const char * IN[] = {"direct", "nn", "linear"};
 
@@ -295,6 +317,26 @@ static void programs_for(Report & R, int bound, uint64_t max_sched, bool thoroug
     }
 }
 
+template <class C>
+static void programs_fn(Report & R, int bound, uint64_t max_sched)
+{
+    // programs aimed at state kept between storage accesses: a previous lookup primes it, another thread comes in between
+    Program prime_then_same = {{{false, 0, 0}, {false, 1, 0}}, {{false, 1, 0}}};
+    Program one_vs_twice = {{{false, 0, 0}}, {{false, 1, 0}, {false, 1, 0}}};
+    Program two_one = {{{false, 0, 0}}, {{false, 1, 0}}};
+    explore_config<C>(R, "prime_then_same", prime_then_same, true, bound, max_sched);
+    explore_config<C>(R, "one_vs_twice", one_vs_twice, true, bound, max_sched);
+    explore_config<C>(R, "2x1lookup", two_one, true, bound, max_sched);
+    explore_config<C>(R, "prime_then_same", prime_then_same, false, bound, max_sched);
+}
+template <class L, size_t N>
+static void all_interps_fn(Report & R, int bound, uint64_t max_sched)
+{
+    programs_fn<Cfg<L, N, DIRECT>>(R, bound, max_sched);
+    programs_fn<Cfg<L, N, NN>>(R, bound, max_sched);
+    programs_fn<Cfg<L, N, LINEAR>>(R, bound, max_sched);
+}
+
 template <class L, size_t N>
 static void all_interps(Report & R, int bound, uint64_t max_sched, bool thorough)
 {
@@ -369,6 +411,17 @@ int main(int argc, char ** argv)
             all_interps<VP_LAYER, 3>(R, bound, max_sched, thorough);
         }
         R.counters["preemption_bound_for_large_programs"] = bound < 0 ? 999 : bound;
+    } else if (mode == "explore_fn") {
+        int bound = argc > 2 ? std::atoi(argv[2]) : 2;
+        uint64_t max_sched = argc > 3 ? std::strtoull(argv[3], nullptr, 10) : 200000;
+        if (argc > 5) g_filter = argv[5];
+        if constexpr (std::is_same_v<VP_LAYER, L_hilbert>) {
+            all_interps_fn<VP_LAYER, 2>(R, bound, max_sched);
+        } else {
+            all_interps_fn<VP_LAYER, 1>(R, bound, max_sched);
+            all_interps_fn<VP_LAYER, 2>(R, bound, max_sched);
+        }
+        R.counters["fn_entry_preemption_bound"] = bound;
     } else {
         g_access_hook = nullptr;
         int T = argc > 2 ? std::atoi(argv[2]) : 4;
